@@ -706,3 +706,97 @@ func genWriterScript(r *rand.Rand, maxOps int) string {
 }
 
 func init() { generators["simple"] = genSimple }
+
+// msgCuts returns the cut list that delivers each message in its own segment.
+func msgCuts(msgs [][]byte) []int {
+	var cuts []int
+	off := 0
+	for _, m := range msgs {
+		off += len(m)
+		cuts = append(cuts, off)
+	}
+	return cuts
+}
+
+// genExtScript: a single-statement script for extended-protocol histories.
+func genExtScript(r *rand.Rand) string {
+	switch r.Intn(12) {
+	case 0:
+		return "!" + genErrSpec(r, r.Intn(2))
+	case 1:
+		return "#"
+	case 2:
+		return "//c:" + hxs("A") + "/ok|//c:" + hxs("B") + "/ok"
+	case 3:
+		return "garbage"
+	}
+	cols, colspec := genCols(r, 2)
+	var ops []string
+	for i := 0; i < r.Intn(3); i++ {
+		ops = append(ops, genRow(r, cols)+"?")
+	}
+	if r.Intn(4) != 0 {
+		ops = append(ops, "c:"+hxs("OK"))
+	}
+	ret := "ok"
+	if r.Intn(7) == 0 {
+		ret = "E" + genErrSpec(r, 1)
+	}
+	return colspec + "/" + []string{"", "23", "P"}[r.Intn(3)] + "/" + strings.Join(ops, ";") + "/" + ret
+}
+
+// genExt (C06): histories of Parse/Bind/Describe/Execute/Close/Flush/Sync over a small name
+// pool, interleaved with simple queries, oversized and unknown messages; every message is
+// delivered in its own segment so that replies are attributed to the message that caused them.
+func genExt(r *rand.Rand, id string) *Case {
+	c := baseCase(id, "ext")
+	c.Extra["evat"] = "1"
+	c.L = []int{0, 512}[r.Intn(2)]
+	msgs := [][]byte{plainStartup("u")}
+	n := 2 + r.Intn(22)
+	for i := 0; i < n; i++ {
+		name := pick(r, namePool)
+		switch k := r.Intn(40); {
+		case k < 8:
+			msgs = append(msgs, msgParse(name, genExtScript(r), nil))
+		case k < 14:
+			msgs = append(msgs, msgBind(name, pick(r, namePool), nil, nil, genResultFormats(r)))
+		case k < 18:
+			kind := []byte("SP")[r.Intn(2)]
+			if r.Intn(15) == 0 {
+				kind = byte(r.Intn(256))
+			}
+			msgs = append(msgs, msgDescribe(kind, name))
+		case k < 24:
+			msgs = append(msgs, msgExecute(name, 0))
+		case k < 31:
+			msgs = append(msgs, msgSync())
+		case k < 33:
+			msgs = append(msgs, msgFlush())
+		case k < 36:
+			kind := []byte("SP")[r.Intn(2)]
+			if r.Intn(15) == 0 {
+				kind = byte(r.Intn(256))
+			}
+			msgs = append(msgs, msgClose(kind, name))
+		case k < 38:
+			msgs = append(msgs, msgQuery(genWriterScript(r, 3)))
+		case k < 39:
+			if c.L > 0 {
+				msgs = append(msgs, typed([]byte("QPBDESHC")[r.Intn(8)], randBytes(r, c.L+1+r.Intn(40), false)))
+			} else {
+				msgs = append(msgs, typed([]byte("zZ?0")[r.Intn(4)], nil))
+			}
+		default:
+			msgs = append(msgs, []([]byte){msgCopyData([]byte("x")), msgCopyDone(), msgCopyFail("f")}[r.Intn(3)])
+		}
+	}
+	if r.Intn(3) != 0 {
+		msgs = append(msgs, msgSync())
+	}
+	c.In = flatten(msgs)
+	c.Cuts = msgCuts(msgs)
+	return c
+}
+
+func init() { generators["ext"] = genExt }
